@@ -5,7 +5,8 @@
     findPruneableHeaders (estimate from the configured block time, extension loop, cut), [cycle] = prune() (lastPruned,
     retryFailed, the batch loop with maxHeadersPerLoop, updateCheckpoint to memory and disk), events of a history:
     cycle, head advance, on-delete hook (optionally with a cycle running inside it), tail removal, graceful restart, crash,
-    reset.  The failure oracle [F h n] (does the n-th Prune call for height h fail?) is arbitrary.
+    reset.  The model follows the repaired code (fix-c14-1: the batch loop always advances; fix-c14-2: the block at a header-store
+    tail that overtook the checkpoint is pruned too).  The failure oracle [F h n] (does the n-th Prune call for height h fail?) is arbitrary.
     A [call] records the header (height [c_h], time [c_t]) handed to Pruner.Prune, who made it ([c_org]), its outcome
     [c_ok], and [c_cut] = head time - window at that moment. *)
 From Coq Require Import List ZArith.
@@ -87,17 +88,31 @@ Theorem C14_eventually_all : forall F c st es e,
 Proof. exact eventually_all. Qed.
 Print Assumptions C14_eventually_all.
 
-(** The same for one cycle from ANY state that has the invariant below (so also after hook calls and tail removals):
-    the checkpoint stays covered and nothing above it is older than the cutoff by more than a block time. *)
+(** The same for one cycle from ANY state (so also after hook calls and tail removals, including a header-store tail that
+    has overtaken the checkpoint): heights up to [base] (at least tail - 1: what lies below the tail has no header any more)
+    are not owed; everything after it up to the new checkpoint is pruned or failed, the tail block included, and nothing
+    above the new checkpoint is older than the cutoff by more than a block time. *)
 Theorem C14_cycle_complete : forall F c w w' cs tr base,
-  0 < window c -> 0 < btime c -> 1 <= maxh c -> sorted_st (w_st w) ->
-  s_tail (w_st w) = base -> in_range (w_st w) (lp (w_mem w)) -> in_range (w_st w) (lp (w_disk w)) ->
+  0 < window c -> 0 < btime c -> 1 <= maxh c -> sorted_st (w_st w) -> s_times (w_st w) <> [] ->
+  s_tail (w_st w) - 1 <= base -> lp (w_mem w) <= s_headH (w_st w) -> lp (w_disk w) <= s_headH (w_st w) ->
   cov base (w_mem w) tr -> cov base (w_disk w) tr ->
   cycle F c w = Ok (w', cs) ->
-  in_range (w_st w) (lp (w_mem w')) /\ in_range (w_st w) (lp (w_disk w')) /\
+  s_tail (w_st w) - 1 <= lp (w_mem w') <= s_headH (w_st w) /\ lp (w_disk w') <= s_headH (w_st w) /\
+  lp (w_mem w) <= lp (w_mem w') /\
   cov base (w_mem w') (tr ++ cs) /\ cov base (w_disk w') (tr ++ cs) /\ exhausted c (w_st w) (w_mem w').
 Proof. exact cycle_complete. Qed.
 Print Assumptions C14_cycle_complete.
+
+(** e.g. the tail overtaking the checkpoint: the block at the new tail is handed to Prune by the next cycle *)
+Theorem C14_tail_block_pruned_example :
+  let st := mkStore 5 [0; 1; 2; 3; 4; 5; 6; 7; 8; 9; 100] in
+  let wt := run (step (fun _ _ => false) (mkCfg 50 1 4)) (init st, [])
+                [EDelete 5 false; EDelete 6 false; EDrop; EDrop; ECycle; EDelete 7 false; EDrop] in
+  map (fun k => (c_org k, c_h k)) (snd wt) =
+    [(OHook, 6); (OBatch, 7); (OBatch, 8); (OBatch, 9); (OBatch, 10); (OBatch, 11); (OBatch, 12); (OBatch, 13); (OBatch, 14)] /\
+  w_mem (fst wt) = mkCp 14 [].
+Proof. exact ex_tail_rebase. Qed.
+Print Assumptions C14_tail_block_pruned_example.
 
 (** ... and failed heights are retried: every cycle hands every failed height whose header is still stored to Prune again. *)
 Theorem C14_failed_retried : forall F c w w' cs,
@@ -106,19 +121,20 @@ Theorem C14_failed_retried : forall F c w w' cs,
 Proof. exact failed_retried. Qed.
 Print Assumptions C14_failed_retried.
 
-(** The search result itself: consecutive store headers right after lastPruned, none newer than the cutoff, at most the
-    batch limit; when the batch is not full nothing above it is older than cutoff - block time. *)
-Theorem C14_find_shape : forall c st lp hd hs,
-  in_store st lp -> head_of st = Some hd -> find c st lp = Ok hs ->
-  consec st (first_h lp) hs /\ Forall (fun x => snd x <= snd hd - window c) hs.
+(** The search result itself ([ck] = the checkpoint height at the call): consecutive store headers right after lastPruned -
+    from lastPruned itself when it is the genesis header or not yet covered by the checkpoint -, none newer than the cutoff,
+    at most the batch limit; when the batch is not full nothing above it is older than cutoff - block time. *)
+Theorem C14_find_shape : forall c st ck lp hd hs,
+  in_store st lp -> head_of st = Some hd -> find c st ck lp = Ok hs ->
+  consec st (first_h ck lp) hs /\ Forall (fun x => snd x <= snd hd - window c) hs.
 Proof. exact find_shape. Qed.
 Print Assumptions C14_find_shape.
 
-Theorem C14_find_complete : forall c st lp hd hs,
-  sorted_st st -> 0 < btime c -> 1 <= maxh c ->
-  in_store st lp -> head_of st = Some hd -> find c st lp = Ok hs ->
+Theorem C14_find_complete : forall c st ck lp hd hs,
+  sorted_st st -> 0 < window c -> 0 < btime c -> 1 <= maxh c ->
+  in_store st lp -> head_of st = Some hd -> find c st ck lp = Ok hs ->
   Z.of_nat (length hs) < maxh c ->
-  forall x, in_store st x -> fst (last hs lp) < fst x -> snd hd - window c <= snd x + btime c.
+  forall x, in_store st x -> upto ck lp hs < fst x -> snd hd - window c <= snd x + btime c.
 Proof. exact find_complete. Qed.
 Print Assumptions C14_find_complete.
 
